@@ -85,6 +85,9 @@ def check_namespace(ctx, ns, label, default_ns):
                 ref = si(default_ns[cname + "_mks"]) if cname + "_mks" in default_ns else si(default_ns[cname])
             for suffix, q in g.items():
                 ctx.count("transitions")
+                if not hasattr(q, "d") or not hasattr(q, "units"):
+                    ctx.violation(f"C15|guise|ns={label}|const={cname}|suffix={suffix}|mode=name-is-not-the-constant", case, "the constant (a quantity)", repr(q)[:60])
+                    continue
                 ok, how = same_quantity(ref, si(q), 16 * EPS)
                 ctx.outcome((label, cname, suffix, how, ok))
                 ctx.decided((label, nm, suffix))
@@ -184,6 +187,17 @@ def run(ctx):
         ns = {}
         add_constants(ns, reg)
         check_namespace(ctx, ns, sname, default_ns)
+        # the unit-container pattern: symbols first, constants on top - where both have a name, the constant wins
+        from unyt.unit_systems import add_symbols
+
+        ns2 = {}
+        add_symbols(ns2, reg)
+        add_constants(ns2, reg)
+        check_namespace(ctx, ns2, sname + "+symbols-first", default_ns)
+        ns3 = {}
+        add_constants(ns3, reg)
+        add_constants(ns3, reg)  # idempotent
+        check_namespace(ctx, ns3, sname + "+twice", default_ns)
     # top-level namespace exports
     for cname, (_v, _u, aliases) in TABLE.items():
         for nm in [cname] + list(aliases):
